@@ -52,7 +52,10 @@ def gen_tangent_line_family(ctx):
     the second curve has one END point on that line and is otherwise strictly to its right, so the two control boxes are
     tangent along x = c and all common points are (s_i, end) with y_A(s_i) = y0: certified by Sturm isolation."""
     rng = ctx.rng
-    out = []
+    # first the witness of the model-level theorem C03_tangent_branch_refuted (Theory/RoundModelTheory.v): the pair the Coq model
+    # proves is classified Tangent and dropped although it covers the common points B1(1/2) = B1(5/6) = B2(0) = (1, 5/4)
+    out = [{"c1": [[F(1), F(1), F(1)], [F(0), F(2), F(1)]], "c2": [[F(1), F(2), F(3)], [F(5, 4), F(2), F(5, 4)]],
+            "expected": [(F(1, 2), F(0)), (F(5, 6), F(0))], "family": "tangent-line"}]
     tries = 0
     want = 12 if ctx.quick() else 300
     while len(out) < want and tries < 200 * want:
